@@ -11,7 +11,7 @@ def norm_out(out: bytes) -> bytes:
 def run(R):
     if not R.build():
         return
-    R.lean(["C15"])
+    R.lean(["C15", "C01Driver"])
     quick = R.tier == "quick"
     rng = R.rng
     P = scen.Producers()
